@@ -346,6 +346,12 @@ def check_phase(spec, form, which):
     ast, stmts = build_ast(spec, form)
     if ast is None:
         return None, False, None
+    # domain: a loop counter exists only inside its loop; a phase in which another statement uses that name as a
+    # variable reads an unset variable on some path (two naming schemes mixed in one phase can produce this)
+    for st in stmts:
+        counters = {ident for ident, _, _ in getattr(st, "loops", [])}
+        if counters and any(counters & all_names([o]) for o in stmts if o is not st):
+            return None, False, None
     orig_stmts = list(get_statements_in_ast(ast))
     orig_names = all_names(stmts) | all_names(orig_stmts)
     orig_ids = {s.id for s in orig_stmts}
